@@ -193,14 +193,17 @@ def _replay_once(fn, cfg, model, choices, opts, f64):
 def replay(fn, cfg, model, choices, opts, label=None):
     """Run the harness concretely; reproduced if an obligation (preferably `label`) fails."""
     last = None
+    base = (label or "").split(":shape")[0]
     for f64 in (True, False):
         res = _replay_once(fn, cfg, model, choices, opts, f64)
         res["f64"] = f64
         last = res
-        if res["status"] == "ran" and res["failures"]:
-            return True, res
-        if res["status"] == "mismatch" and res["failures"]:
-            return True, res
+        if res["status"] in ("ran", "mismatch") and res["failures"]:
+            same = [f for f in res["failures"] if f["label"].split(":shape")[0] == base or f["label"].startswith("raises:") and base.startswith("raises:")]
+            if same or label is None:
+                res["failures"] = same or res["failures"]
+                return True, res
+            res["other_failures"] = [f["label"] for f in res["failures"]][:5]
     return False, last
 
 
